@@ -69,6 +69,8 @@ def stop_sections(report=MAIN_REPORT):
     old_submission = report[TOOL_NAME]['substitutions'].pop()
     report.stop_group(report[TOOL_NAME]['section_group'])
     report.submission.replace_main(old_submission.code, old_submission.filename)
+    # The whole file is back: its lines are no longer shifted
+    report.submission.set_line_offset(0)
     report[TOOL_NAME]['section_group'] = None
 
 def stop_any_sections(report=MAIN_REPORT):
@@ -90,6 +92,7 @@ def next_section(name="", report=MAIN_REPORT):
     old_submission = report[TOOL_NAME]['substitutions'][-1]
     report.stop_group(report[TOOL_NAME]['section_group'])
     report.submission.replace_main(old_submission.code, old_submission.filename)
+    report.submission.set_line_offset(0)
     # Advance to next section
     source['section'] += 2
     section_index = source['section']
@@ -101,7 +104,9 @@ def next_section(name="", report=MAIN_REPORT):
         if source['independent']:
             new_code = ''.join(sections[section_index])
             old_code = ''.join(sections[:section_index])
-            report.submission.set_line_offset(len(old_code.split("\n"))-1)
+            # Count the line breaks before this section the way the Python parser does
+            # (\n, \r\n and a lone \r each end a line; form feeds and the like do not)
+            report.submission.set_line_offset(old_code.count("\n") + old_code.count("\r") - old_code.count("\r\n"))
         else:
             new_code = ''.join(sections[:section_index + 1])
         report.submission.replace_main(new_code)
